@@ -982,6 +982,52 @@ pub fn t2_pairs(cfg: &Cfg) -> Vec<T> {
             }
         }
     }
+    // array nestings with two non-leaf children: equality / ite / read over stores, constant arrays and
+    // ites with the same or different base arrays, index and data symbols (rules that split or merge
+    // array equalities and stores look at both sides)
+    for (iw, dw) in cfg.arrays.iter().cloned() {
+        let aty = Ty::Arr(iw, dw);
+        let m = || T::Sym(sym_name(aty, 0), aty);
+        let n = || T::Sym(sym_name(aty, 1), aty);
+        let i0 = || T::Sym(sym_name(Ty::Bv(iw), 0), Ty::Bv(iw));
+        let i1 = || T::Sym(sym_name(Ty::Bv(iw), 1), Ty::Bv(iw));
+        let d0 = || T::Sym(sym_name(Ty::Bv(dw), 2), Ty::Bv(dw));
+        let d1 = || T::Sym(sym_name(Ty::Bv(dw), 3), Ty::Bv(dw));
+        let c = || T::Sym(sym_name(Ty::Bv(1), 3), Ty::Bv(1));
+        let st = |a: T, i: T, d: T| T::Store(Box::new(a), Box::new(i), Box::new(d));
+        let k0 = || T::AConst(iw, Box::new(d0()));
+        let k1 = || T::AConst(iw, Box::new(d1()));
+        let pool: Vec<T> = vec![
+            m(),
+            n(),
+            k0(),
+            k1(),
+            st(m(), i0(), d0()),
+            st(n(), i0(), d1()),
+            st(n(), i0(), d0()),
+            st(m(), i1(), d0()),
+            st(m(), i0(), d1()),
+            st(k0(), i0(), d1()),
+            st(k1(), i1(), d0()),
+            st(st(m(), i0(), d0()), i0(), d1()),
+            st(st(m(), i0(), d0()), i1(), d1()),
+            T::ite(c(), m(), n()),
+            T::ite(c(), st(m(), i0(), d0()), m()),
+        ];
+        for x in pool.iter() {
+            for y in pool.iter() {
+                out.push(T::bin(Bin::Eq, x.clone(), y.clone()));
+            }
+            for i in [i0(), i1()] {
+                out.push(T::Read(Box::new(x.clone()), Box::new(i)));
+            }
+            if !matches!(x, T::Sym(..)) {
+                out.push(T::ite(c(), x.clone(), n()));
+                out.push(T::ite(c(), m(), x.clone()));
+                out.push(st(x.clone(), i1(), d1()));
+            }
+        }
+    }
     out
 }
 
